@@ -143,8 +143,16 @@ func execC02(t *testing.T, raw json.RawMessage, res *Result) {
 	case "cell":
 		if len(rows) > 0 {
 			i, j := p.MutRow%len(rows), p.MutCol%len(cols)
-			mrows[i][j] += "~"
-			mutated = true
+			if len(mrows[i][j]) >= 65535 {
+				mrows[i][j] = "~" + mrows[i][j][1:]
+				if mrows[i][j] == rows[i][j] {
+					mrows[i][j] = "!" + mrows[i][j][1:]
+				}
+			} else {
+				mrows[i][j] += "~"
+			}
+			mrows = DedupeByKey(mcols, mpk, mrows)
+			mutated = len(mrows) == len(rows)
 		}
 	case "colname":
 		j := p.MutCol % len(cols)
